@@ -194,14 +194,19 @@ PROPS = {
     trusted=[FLOAT_TB, '"fresh process, different hasher seed" is an observation, not a theorem'],
  ),
  'C18': dict(
-    modules=['SlacProps.C18'],
+    modules=['SlacProps.C18', 'SlacProps.C18Engine'],
     streams=[
         dict(name='re', n=n(20000, 300000), oracle='none'),
         dict(name='relaw', n=n(20000, 300000), model=False, oracle='none', laws=['ok']),
+        dict(name='rex', gen='py:regexgen.py mix', n=n(30000, 600000), oracle='none', laws=['no_crash'], case_timeout=30.0),
+        dict(name='rexvalid', gen='py:regexgen.py valid', n=n(15000, 300000), oracle='none', laws=['no_crash'], case_timeout=30.0),
+        dict(name='rexcall', gen='call:re_is_match,re_find,re_capture,re_replace', n=n(3000, 50000), oracle='none', laws=['no_crash'], case_timeout=30.0),
     ],
-    rule='re: the four wrappers on haystacks (empty, ASCII, non-ASCII) x patterns (literals, classes, repetitions, alternations, groups incl. optional/nested/named, anchors, empty-matching, invalid) x replacements (plain, $-references) x limits, '
+    rule='rex / rexvalid / rexcall: the four builtins on random-grammar patterns (tools/regexgen.py: mixed valid/malformed, valid-heavy) and on the harness pools, answered by the CONCRETE engine model '
+         '(SlacModel/RegexEngine.lean: parser incl. every error branch and the nest/size limits, backtracking matcher with leftmost-first priorities, find_iter empty-match rule, $-interpolation) and compared exactly; patterns outside its subset (nullable body under an unbounded loop, flag x, non-ASCII group names) answer unmodelled and are counted. '
+         're: the four wrappers on haystacks (empty, ASCII, non-ASCII) x patterns (literals, classes, repetitions, alternations, groups incl. optional/nested/named, anchors, empty-matching, invalid) x replacements (plain, $-references) x limits, '
          'with the raw regex-lite answers shipped in the case so that the wrapper logic is compared exactly; relaw: the property\'s cross-function relations evaluated on the builtins (is_match vs find, capture shape/length, replace limit via match spans, escaped literals vs contains/count/replace, invalid patterns)',
-    trusted=['regex-lite is not modelled: theorems are relative to the stated engine laws (LawfulEngine, ReplacenSplices, LiteralLaw), which relaw samples as tests of the library'],
+    trusted=['regex-lite: the theorems of C18.lean are relative to the stated engine laws; C18Engine.lean proves them (LawfulEngine, the literal law and the replace-splices law for replacement texts without $) for the concrete engine model, whose agreement with regex-lite 0.1.9 is the behavioural tie of the rex streams (differential testing, not a proof about the PikeVM)'],
  ),
  'C15': dict(
     modules=['SlacProps.C15', 'SlacProps.C15Float'], builds=['default', 'zero'],
